@@ -511,3 +511,61 @@ Proof.
   destruct (r_cut r <? dist (snd x) prev (wrap_of N circular)); [reflexivity|].
   unfold can_extend. rewrite Hn. apply IH.
 Qed.
+
+(* ---------- merge_over_origin.merge_pair: the neighbourhood of a merged protocluster ---------- *)
+Ltac unbind H :=
+  repeat match type of H with
+         | bind ?x _ = Ok _ => let E := fresh "E" in destruct x eqn:E; cbn [bind] in H; [|discriminate H]
+         end.
+Ltac unif H :=
+  match type of H with
+  | (if ?c then _ else _) = Ok _ => let E := fresh "C" in destruct c eqn:E; [discriminate H|]
+  end.
+
+(* _extend_area_location never hands back more parts than the record type allows (the last check
+   of the function), whatever the distance: no three-part neighbourhood *)
+Lemma extend_area_parts l d N circular force r :
+  extend_area l d N circular force = Ok r -> zlen r <= (if circular then 2 else 1).
+Proof.
+  unfold extend_area. intro H.
+  unif H. unbind H. unif H. unbind H.
+  match type of H with (if ?c then _ else _) = Ok _ => destruct c eqn:Hz; [discriminate H|] end.
+  inversion H; subst. apply Z.ltb_ge in Hz. exact Hz.
+Qed.
+
+(* the merged protocluster: core = connect_locations of the two cores, rule = the first cluster's, and
+   the neighbourhood is the capped, forward-stranded area extension of that core (the function used for
+   every unmerged protocluster) - or, when that extension fills the record without crossing the origin
+   although the core crosses it, the two forward parts of the halfway split *)
+Lemma merge_pair_area N circular rules a b m :
+  merge_pair N circular rules a b = Ok m ->
+  exists core sur0,
+    connect_locations [p_core a; p_core b] (wrap_of N circular) = Ok core /\
+    extend_area core (r_nb (nth_rule rules (p_rule a))) N circular false = Ok sur0 /\
+    zlen sur0 <= (if circular then 2 else 1) /\
+    p_rule m = p_rule a /\ p_core m = core /\
+    (p_sur m = sur0 \/
+     (bridges core = true /\ llen sur0 = N /\ bridges sur0 = false /\
+      exists x y, p_sur m = [mkPart x N 1; mkPart 0 y 1])).
+Proof.
+  unfold merge_pair. intro H. unbind H.
+  match goal with
+  | E0 : connect_locations _ _ = Ok ?c, E1 : extend_area ?c _ _ _ _ = Ok ?s0 |- _ =>
+    exists c, s0; split; [reflexivity|]; split; [exact E1|]; split; [eapply extend_area_parts; exact E1|]
+  end.
+  inversion H; subst m. cbn [p_rule p_core p_sur fst snd].
+  split; [reflexivity|]. split; [reflexivity|].
+  match goal with
+  | E2 : (if ?c then _ else _) = Ok _ |- _ => destruct c eqn:Hc
+  end.
+  - right. apply andb_true_iff in Hc. destruct Hc as [Hc Hb]. apply andb_true_iff in Hc. destruct Hc as [Hl Hn].
+    apply Z.eqb_eq in Hl. apply negb_true_iff in Hn.
+    split; [exact Hb|]. split; [exact Hl|]. split; [exact Hn|].
+    match goal with E2 : match ?c with _ => _ end = Ok _ |- _ => destruct c as [|p0 [|p1 rest]]; try discriminate E2; rename E2 into Hs end.
+    unbind Hs. inversion Hs; subst.
+    repeat match goal with
+           | E : mkFL ?a ?b ?c = Ok _ |- _ => unfold mkFL in E; destruct (b <? a); [discriminate E|]; inversion E; subst; clear E
+           end.
+    eexists; eexists; reflexivity.
+  - left. match goal with E2 : Ok _ = Ok _ |- _ => inversion E2; reflexivity end.
+Qed.
